@@ -10,7 +10,7 @@ from rtok import match_close, ShapeError, find_fn
 LEVEL = "model_checking"
 
 HARNESSES_QUICK = ["k_dec_word", "k_dec_words", "k_dec_bit64", "k_dec_limit", "k_dec_typed", "k_dec_string_small"]
-HARNESSES_THOROUGH = ["k_dec_word", "k_dec_words", "k_dec_bit64", "k_dec_limit", "k_dec_typed", "k_dec_string_small", "k_dec_string"]
+HARNESSES_THOROUGH = ["k_dec_word", "k_dec_words", "k_dec_bit64", "k_dec_limit", "k_dec_typed", "k_dec_string_small", "k_dec_string_mid", "k_dec_string"]
 
 
 def typed_decode_shapes(ctx):
@@ -177,14 +177,16 @@ def run(ctx):
                    "any limit: None or Some(any usize); any word-aligned offset <= len",
                    "requests: word/id/bit32/ext_inst_integer, words(n<=3), bit64, string, set_limit(n<=127)/clear_limit/has_limit/limit_reached, three typed requests"]
     ctx.assumptions += ["reachable-state invariant offset % 4 == 0 && offset <= len (checked to be preserved by every request)",
-                        "outside the bound: buffers longer than 12 bytes",
+                        "outside the bound: buffers longer than 12 bytes; string requests on buffers longer than 6 bytes (quick) / 8 bytes (thorough; the 12-byte string harness is attempted and reported, CBMC usually exhausts 14 GB on it)",
                         "typed requests: three are run through Kani on the compiled code; all of them are executed from MIR over the word() contract"]
     ctx.trusted += ["Kani 0.68 / CBMC 6.11 with unwinding assertions", "hook Decoder::verif_at (constructs the state, changes no code)"]
     ctx.functions.update(["rspirv::binary::Decoder::{word,words,id,bit32,bit64,ext_inst_integer,string,set_limit,clear_limit,has_limit,limit_reached,offset}",
                           "Decoder::{source_language,function_control,addressing_model}"])
     ctx.extra["typed_requests_decided_from_mir"] = typed_requests_mir(ctx)
     res = kani.run_many(hs, cap_s=1500 if ctx.tier == "quick" else 3000)
-    kani.settle(ctx, res, lambda h: h[2:])
+    # string requests: buffers of <= 6 bytes (quick) and <= 8 bytes (thorough) are required verdicts; the 12-byte harness exhausts
+    # CBMC's memory on this machine more often than not and only adds depth
+    kani.settle(ctx, res, lambda h: h[2:], optional=("k_dec_string",))
     ctx.extra["states"] = sum(r.checks_total for r in res.values()) or 1
     ctx.extra["transitions"] = len(hs)
     ctx.extra["harness_times_s"] = {h: round(r.time, 1) for h, r in res.items()}
